@@ -21,7 +21,7 @@ VARIABLES pc, holder, depth, mver, lockedV, seenV, wire, sched
 vars == <<pc, holder, depth, mver, lockedV, seenV, wire, sched>>
 
 T == DOMAIN Prog
-Locks == {"tr", "mdib"}
+Locks == {"tr", "mdib", "txid"}
 Free == 0
 Reentrant(lk) == lk = "mdib"
 
